@@ -201,6 +201,23 @@ def run(prog, rep):
     rep.check(any(isinstance(n, ast.Assign) and unparse(n.targets[0]) == "%s._subsets" % gs.params[0] and _fresh_list(n.value) for n in walk_no_nested(gs.node)),
               "STATE-1", "FuzzyFinder resets _subsets per search", "ok", "_generate_parameters_subsets does not reset self._subsets", gs.where)
 
+    # the finder never modifies the query parameters it was handed (the caller may reuse the dictionary)
+    muts = []
+    for f in ff.methods.values():
+        me0 = f.params[0] if f.params else "self"
+        for n in walk_no_nested(f.node):
+            if isinstance(n, ast.Call) and isinstance(n.func, ast.Attribute) and unparse(n.func.value) == "%s.q_params" % me0 \
+                    and n.func.attr in ("pop", "popitem", "clear", "update", "setdefault", "__setitem__", "__delitem__"):
+                muts.append((f, n, unparse(n)[:50]))
+            if isinstance(n, (ast.Assign, ast.AugAssign, ast.Delete)):
+                tg = n.targets if isinstance(n, (ast.Assign, ast.Delete)) else [n.target]
+                for t0 in tg:
+                    if isinstance(t0, ast.Subscript) and unparse(t0.value) == "%s.q_params" % me0:
+                        muts.append((f, n, unparse(n)[:50]))
+    rep.check(not muts, "STATE-1", "FuzzyFinder leaves the caller's query parameters unchanged", "no mutation of self.q_params",
+              "FuzzyFinder modifies the parameter dictionary it was given: %s" % [m0[2] for m0 in muts], where(muts[0][0], muts[0][1]) if muts else fmod.path,
+              witness="the same parameter dictionary used for a second search: the search terms are gone, the report is empty")
+
     # ------------------------------------------------------------------ DFS-1
     rep.rule("DFS-1", "_subsets_util_dfs(index, path, res, attrs): appends path when non-empty, loops i over range(index, len(attrs)) and "
                       "recurses with (i + 1, path + [attrs[i]]) guarded by _check_duplicate_attrs(path, attrs[i]); _check_duplicate_attrs "
